@@ -1,7 +1,7 @@
 """C05 - the cache hierarchy is transparent and leaves nothing behind."""
 from . import syscheck, sysdiff as S
 
-PROFILES = [('mem', 2), ('evict', 1), ('ldonly', 1), ('disj', 1), ('touched', 1), ('stld', 1), ('loops', 1), ('mixed', 1)]
+PROFILES = [('mem', 2), ('evict', 1), ('evictlf', 1), ('ssamem', 2), ('ssald', 1), ('ldonly', 1), ('disj', 1), ('touched', 1), ('stld', 1), ('loops', 1), ('mixed', 1)]
 
 
 def run(ctx):
